@@ -151,6 +151,8 @@ def gantt_shape(layout_name, mode, calendar=False):
     sh.grid = False
     sh.spec = (layout_name, mode)
     sh.calendar = calendar
+    from symx.harness import crash_obligations
+    sh.on_exception = crash_obligations(PROP, name, "checks.c17:replay_gantt", "rendering a valid solution does not succeed")
     return sh
 
 
@@ -379,6 +381,7 @@ def replay_agg(desc):
     return 0
 
 
+@confirm_library_failure
 def replay_gantt(desc):
     """the same layout rendered with the real matplotlib (Agg) on concrete times"""
     import symx.harness as H
